@@ -63,6 +63,13 @@ impl JoinedTableData {
                 }
             }
 
+            // A line that is not valid UTF-8 is skipped, the lines after it are still processed
+            if let Err(err) = line.as_ref() {
+                if err.kind() == std::io::ErrorKind::InvalidData {
+                    continue;
+                }
+            }
+
             if let Ok(line) = line {
                 let result = execution_engine.execute(line.clone(), &config)?.result_row;
                 if let Some(result) = result {
